@@ -31,22 +31,23 @@ ASSUMPTIONS = [
     "rounded results (is_exact False): deviation at n<=10 compared with 10*(n+k)*k*eps_rel*cond(V)*max|e_n|*max(1,|C|) measured on the exact roots; "
     "numeric_croots precision taken as 1e-13 (sympy N() default), not eps",
 ]
-TIMEOUT = {"quick": 70, "thorough": 200}
+TIMEOUT = {"quick": 70, "thorough": 150}
 DEADLINE = {"quick": 100, "thorough": 1500}
-MIN_DECIDING = {"quick": 60, "thorough": 600}
-NCASES = {"quick": 230, "thorough": 5200}
-RUN_BUDGET = {"quick": 12, "thorough": 50}    # seconds per solver run and per comparison phase (alarm inside the worker)
-CASE_BUDGET = {"quick": 40, "thorough": 140}  # no new run is started after this many seconds (watchdog = TIMEOUT)
+MIN_DECIDING = {"quick": 60, "thorough": 500}
+NCASES = {"quick": 230, "thorough": 2400}
+RUN_BUDGET = {"quick": 12, "thorough": 30}    # seconds per solver run and per comparison phase (alarm inside the worker)
+CASE_BUDGET = {"quick": 40, "thorough": 100}  # no new run is started after this many seconds (watchdog = TIMEOUT)
 HEAVY = ("hard", "repeated_companion", "companion", "scrambled", "parametric", "syminit", "options")
 
 KEY_P1 = "acyclic-zero-coefficient-shift-single-special-case"
 KEY_P2 = "cyclic-constants-fitted-inside-zero-eigenvalue-transient"
 KEY_P3 = "numeric-roots-drop-complex-eigenvalues"
+KEY_FLOAT = "numeric-croots-float-linsolve-unstable"
 
 
 def generate(seed, tier):
     cases = []
-    for name, sysd in M.fixed_cases():
+    for name, sysd in M.fixed_cases(tier):
         c = dict(sysd)
         c["id"] = name
         cases.append(c)
@@ -55,8 +56,10 @@ def generate(seed, tier):
         c = M.generate_system(cs, tier)
         c["id"] = f"sys-{cs}"
         cases.append(c)
-    # potentially slow profiles first so that they overlap with the many cheap ones (stable, deterministic)
-    cases.sort(key=lambda c: (0 if c["profile"] == "fixed" else 1 + (HEAVY.index(c["profile"]) if c["profile"] in HEAVY else len(HEAVY))))
+    # quick: potentially slow profiles first so that they overlap with the many cheap ones (stable, deterministic);
+    # thorough keeps the (pseudo-random) generation order so that a deadline cuts all profiles evenly
+    if tier == "quick":
+        cases.sort(key=lambda c: (0 if c["profile"] == "fixed" else 1 + (HEAVY.index(c["profile"]) if c["profile"] in HEAVY else len(HEAVY))))
     return cases
 
 
@@ -387,6 +390,7 @@ def run_case(case, tier):
     import time
     t_case = time.time()
     timed_out_kinds = set()
+    kinds_done = set()
     runs_done = 0
     nontrivial = False
     sample_runs = []
@@ -461,6 +465,8 @@ def run_case(case, tier):
                         s, t, _g = shape_of(fi)
                         f = numerify_for_eval(fi)
                         N = min(s + t + dim + 2, 60)
+                        if s + t + dim + 2 > 60:
+                            bump(extra, "n-range-capped-at-60")
                         n_checked = max(n_checked, N)
                         if len({truth[n][ci] for n in range(N + 1)}) > 1:
                             nontrivial = True
@@ -485,7 +491,8 @@ def run_case(case, tier):
                             except P.NotANumber as e:
                                 bad = {"kind": "not-a-number", "n": n, "detail": f"value is {e}"}
                                 break
-                            run_cmp += 1
+                            if is_exact or dev is not None:
+                                run_cmp += 1
                             if is_exact:
                                 ok = P.values_equal(pv, tv)
                                 if not ok:
@@ -512,7 +519,7 @@ def run_case(case, tier):
                             # the three known mechanisms corrupt the general branch only: the listed special cases are
                             # plain matrix iterates, a mismatch there is something else
                             in_general = bad["n"] >= s
-                            key = classify(kind, numeric_roots, info, ci in zreach) if (in_general and bad["kind"] in ("wrong-value-flagged-exact", "rounded-deviation-too-large")) else None
+                            key = classify(kind, numeric_roots, info, ci in zreach, numeric_croots, is_exact, f0) if (in_general and bad["kind"] in ("wrong-value-flagged-exact", "rounded-deviation-too-large")) else None
                             bad.update(key=key, run=label, solver=kind, is_exact=is_exact, component=case["vars"][ci],
                                        truth_seq=[P.val_str(truth[n][ci]) for n in range(min(N, 7) + 1)],
                                        closed_form=str(f0)[:400],
@@ -527,6 +534,7 @@ def run_case(case, tier):
                 res["violations"] += run_viol
                 bump(extra, "ms:oracle-compare", int(1000 * (time.time() - t_run)))
                 runs_done += 1
+                kinds_done.add(kind)
                 if len(sample_runs) < 2:
                     sample_runs.append({"run": label, "solver": kind, "is_exact": is_exact,
                                         "closed_form[0]": str(forms[0])[:200], "n_checked_upto": n_checked})
@@ -545,6 +553,8 @@ def run_case(case, tier):
         reason = "refused" if any(not r.startswith("timeout:") for r in res["refusals"]) else "timeout"
         res.update(verdict="inconclusive", reason=reason)
         return res
+    if len(kinds_done) == 2:
+        bump(extra, "cases:both-solvers-vs-oracle")
     res["nontrivial"] = nontrivial
     res["verdict"] = "violated" if res["violations"] else "held"
     An, bn, vn, vals, info = instances[0]
@@ -554,13 +564,18 @@ def run_case(case, tier):
     return res
 
 
-def classify(kind, numeric_roots, info, comp_on_zero_chain):
+def classify(kind, numeric_roots, info, comp_on_zero_chain, numeric_croots=False, is_exact=True, form=None):
+    """mechanism key from diagnostic predicates over the witness (never from values)"""
+    import sympy
     if kind == "acyclic":
         return KEY_P1 if comp_on_zero_chain else None
     if numeric_roots and info["has_complex"]:
         return KEY_P3
     if info["zero_index"] >= 2:
         return KEY_P2
+    if numeric_croots and not numeric_roots and not is_exact and form is not None and form.atoms(sympy.Float):
+        # CRootOf roots were replaced by 15-digit floats and the unknowns were then solved by sympy linsolve
+        return KEY_FLOAT
     return None
 
 
